@@ -315,9 +315,10 @@ func (b *Backend) Sequence(max int, resign bool) int {
 // MemStore is the simulated IssuanceChainStorage: hash-addressed rows, every
 // call a seam.
 type MemStore struct {
-	S    *kernel.Sim
-	mu   sync.Mutex
-	Rows map[string][]byte
+	IgnoresCtx bool // per run: lookups never report the request's context error, they finish (as a driver without context support does)
+	S          *kernel.Sim
+	mu         sync.Mutex
+	Rows       map[string][]byte
 }
 
 var _ storage.IssuanceChainStorage = (*MemStore)(nil)
@@ -342,10 +343,14 @@ func (m *MemStore) FindByKey(ctx context.Context, key []byte) ([]byte, error) {
 	// The lookup does not watch the request's context while it is under way (a store may notice a cancellation late
 	// or not at all): when the driver lets it finish after the deadline it either reports the context's error, as a
 	// well-behaved store does, or - "store.slow" - the row it has found meanwhile.
-	d, _ := m.S.Seam(nil, m.party(ctx), "store.Find", "", key)
-	if err := ctx.Err(); err != nil && d.Kind != "store.slow" {
+	d, _ := m.S.Seam(nil, m.party(ctx), "store.Find", keyDigest(key), key) // keyed by content: one request may look up several chains at once
+	if err := ctx.Err(); err != nil && d.Kind != "store.slow" && !m.IgnoresCtx {
 		m.note(ctx, kernel.Decision{Kind: "ctx"})
 		return nil, err
+	}
+	if ctx.Err() != nil && d.Kind == "ok" {
+		d.Kind = "store.slow" // a store that does not watch contexts at all (IgnoresCtx): answered after the deadline
+		m.S.Fault("store.slow")
 	}
 	m.note(ctx, d)
 	switch d.Kind {
@@ -367,7 +372,7 @@ func (m *MemStore) FindByKey(ctx context.Context, key []byte) ([]byte, error) {
 
 // Add implements IssuanceChainStorage (insert-if-absent, as the SQL stores do).
 func (m *MemStore) Add(ctx context.Context, key []byte, chain []byte) error {
-	d, err := m.S.Seam(ctx, m.party(ctx), "store.Add", "", key)
+	d, err := m.S.Seam(ctx, m.party(ctx), "store.Add", keyDigest(key), key)
 	if err != nil {
 		m.note(ctx, kernel.Decision{Kind: "ctx"})
 		return err
@@ -421,7 +426,7 @@ func (c *SimCache) Get(ctx context.Context, key []byte) ([]byte, error) {
 	if op != nil {
 		party = op.Party
 	}
-	d, err := c.S.Seam(ctx, party, "cache.Get", "", key)
+	d, err := c.S.Seam(ctx, party, "cache.Get", keyDigest(key), key)
 	if err != nil {
 		d = kernel.Decision{Kind: "ctx"}
 	}
@@ -457,7 +462,7 @@ func (c *SimCache) Set(ctx context.Context, key []byte, chain []byte) error {
 	if op := opFrom(ctx); op != nil {
 		party = "cachefill:" + op.Party // the detached fill inherits the request's context values
 	}
-	d, err := c.S.Seam(nil, party, "cache.Set", fmt.Sprintf("%x", key[:min(6, len(key))]), key)
+	d, err := c.S.Seam(nil, party, "cache.Set", keyDigest(key), key)
 	if err != nil {
 		return err
 	}
@@ -669,3 +674,5 @@ func sortedKeys[V any](m map[string]V) []string {
 	sort.Strings(ks)
 	return ks
 }
+
+func keyDigest(key []byte) string { return fmt.Sprintf("%x", key[:min(6, len(key))]) }
